@@ -23,7 +23,7 @@ def run(ctx):
     for b in rbad:
         if b["reason"] in ("panic-no-recovery", "hang", "crash"):
             d = pc.sig_dict(b)
-            V.reject({"reason": b["reason"], "fn": d.get("fn", ""), "text": d.get("text", "")}, {"event": b["event"]})
+            V.reject({"reason": b["reason"], "file": d.get("file", ""), "fn": d.get("fn", ""), "text": d.get("text", "")}, {"event": b["event"]})
     rc = V.finish()
     cov = {"traces_validated_against_impl": rst["cases"], "states": rst["tstates"], "transitions": rst["tstates"],
            "evaluations": rst["events"], "distinct_nontrivial": rst["distinct_nontrivial"],
